@@ -20,6 +20,8 @@ CONSTANTS Peers,            \* set of peer names (strings), e.g. {"p1","p2"}
           KnownDeviations,  \* names of deviations accepted as known findings
           Acts,             \* action kinds offered by Inputs (generator / MC)
           MaxVal,           \* data values 1..MaxVal
+          GhostCap,         \* cap of the ghost counters nsub/nbind (0 = ghosts off)
+          Tiny,             \* set of action kinds offered with a minimal argument domain (for full history trees)
           Rich              \* set of action kinds for which Inputs also offers the invalid / unusual argument variants
 
 ---------------------------------------------------------------------------
@@ -75,7 +77,11 @@ InitSt == [ conn  |-> {},                          \* peers with a connection (S
             binds |-> {},                           \* [p, c, s]  server-side binding registry
             csub  |-> {},                           \* [k, p, r]  client-side subscription bookkeeping
             cbind |-> {},                           \* [k, p, r]  client-side binding bookkeeping
-            data  |-> [c \in Cells |-> 0] ]         \* abstract data version per cell (0 = initial)
+            data  |-> [c \in Cells |-> 0],          \* abstract data version per cell (0 = initial)
+            \* ghosts: number of registry insertions so far (capped).  No outcome depends on them; they only keep
+            \* states with a different insertion history apart, so that the transition cover also reaches the
+            \* hidden state of the code (id counters, slice capacity) behind one abstract registry value
+            nsub  |-> 0, nbind |-> 0 ]
 
 Discovered(st, p) == p \in st.conn /\ p \in st.addr
 \* the device address of a peer is known after its first discovery reply
@@ -183,6 +189,7 @@ CliOK(st, p, c, ft) == /\ RKnown(st, p, c)
                        /\ RF[c].role \in {"client", "special"}
                        /\ (RF[c].type = ft \/ RF[c].type = "Generic")
 Entry(p, c, s) == [p |-> p, c |-> c, s |-> s]
+Ghost(n) == IF n < GhostCap THEN n + 1 ELSE n
 
 SubGranted(st, a)  == SrvOK(a.s, a.ft) /\ CliOK(st, a.p, a.c, a.ft) /\ Entry(a.p, a.c, a.s) \notin st.subs
 BindGranted(st, a) == SrvOK(a.s, a.ft) /\ CliOK(st, a.p, a.c, a.ft) /\ ~\E b \in st.binds : b.s = a.s
@@ -193,7 +200,7 @@ CallRes(a, ok) == OutTo(a.p, IF ok THEN Ack(a, "NM", "nm") ELSE {ResErr("NM", "n
 SubOut(st, a) ==
     IF ~Discovered(st, a.p) THEN { Outcome(st, NoOut, {}, "ok", Ideal) }
     ELSE IF SubGranted(st, a)
-    THEN { Outcome([st EXCEPT !.subs = @ \cup {Entry(a.p, a.c, a.s)}], CallRes(a, TRUE),
+    THEN { Outcome([st EXCEPT !.subs = @ \cup {Entry(a.p, a.c, a.s)}, !.nsub = Ghost(@)], CallRes(a, TRUE),
                    {Ev("sub", "add", a.p, "", a.c, a.s)}, "ok", Ideal) }
     ELSE { Outcome(st, CallRes(a, FALSE), {}, "ok", Ideal) }
 
@@ -207,7 +214,7 @@ UnsubOut(st, a) ==
 BindOut(st, a) ==
     IF ~Discovered(st, a.p) THEN { Outcome(st, NoOut, {}, "ok", Ideal) }
     ELSE IF BindGranted(st, a)
-    THEN { Outcome([st EXCEPT !.binds = @ \cup {Entry(a.p, a.c, a.s)}], CallRes(a, TRUE),
+    THEN { Outcome([st EXCEPT !.binds = @ \cup {Entry(a.p, a.c, a.s)}, !.nbind = Ghost(@)], CallRes(a, TRUE),
                    {Ev("bind", "add", a.p, "", a.c, a.s)}, "ok", Ideal) }
     ELSE { Outcome(st, CallRes(a, FALSE), {}, "ok", Ideal) }
 
@@ -320,8 +327,10 @@ Acks(k) == IF R(k) THEN BOOLEAN ELSE {TRUE}
 DevVar(k) == IF R(k) THEN {"own", "omit"} ELSE {"own"}
 
 \* client / server argument domains for registry calls
-CliArgs(k) == IF R(k) THEN {"c11", "c12", "c13", "s14", "c21", "x19", "x91"} ELSE {"c11", "c12", "c21"}
-SrvArgs(k) == IF R(k) THEN {"S1", "S2", "S3", "K1", "NM", "X19", "X91"} ELSE {"S1", "S2", "S3"}
+CliArgs(k) == IF R(k) THEN {"c11", "c12", "c13", "s14", "c21", "x19", "x91"}
+              ELSE IF k \in Tiny THEN {"c11", "c12"} ELSE {"c11", "c12", "c21"}
+SrvArgs(k) == IF R(k) THEN {"S1", "S2", "S3", "K1", "NM", "X19", "X91"}
+              ELSE IF k \in Tiny THEN {"S1", "S2"} ELSE {"S1", "S2", "S3"}
 \* requested type: the server feature's own type, or (rich) a wrong one
 FtArgs(k, s) == LET own == IF s \in LocalNames THEN LF[s].type ELSE "LoadControl"
                 IN IF R(k) THEN {own, "Measurement"} ELSE {own}
